@@ -426,4 +426,44 @@ def rule_e(prog, rep):
             rep.violation('C06.e', f'Worterbuch::{fname}', f.loc, 'request operands are not passed on', key=f'C06.e/{fname}/operands')
 
 
-RULES = [('C06.a', rule_a), ('C06.b', rule_b), ('C06.c', rule_c), ('C06.d', rule_d), ('C06.e', rule_e)]
+def rule_f(prog, rep):
+    rep.rule('C06.f', 'T3+T7', "the core hands the store's verdict on: Worterbuch::lock and release_lock apply `?` to Store::lock / "
+             'Store::unlock (a refusal reaches the client, nothing is recorded for a refused request) and pass the requesting '
+             "client's id and the parsed request key; acquire_lock returns the receiver Store::acquire_lock produced for that client")
+    crate = prog.crate(WB)
+    for fname, sfn, has_result in (('lock', 'lock', True), ('release_lock', 'unlock', True), ('acquire_lock', 'acquire_lock', False)):
+        f = crate.fn(f'{CORE}::{fname}')
+        b = Bindings(crate, f)
+        calls = [(nd, anc) for nd, anc in crate.walk_fn(f) if nd.get('k') == 'call' and callee(nd) == f'{STORE}::{sfn}']
+        problems = []
+        if len(calls) != 1:
+            problems.append(f'{len(calls)} calls of Store::{sfn}')
+        else:
+            nd, anc = calls[0]
+            chain = [a for a in anc if isinstance(a, dict)]
+            par = chain[-1] if chain else {}
+            if par.get('k') == 'await':
+                par = chain[-2] if len(chain) > 1 else {}
+            if has_result and par.get('k') != 'try':
+                how = short(callee(par)) if par.get('k') == 'call' else par.get('k')
+                problems.append(f"the store's verdict is not propagated with `?` (consumed by `{how}`)")
+            if b.origins(nd['args'][1]) != {'param(client_id)'}:
+                problems.append(f"not for the requesting client ({sorted(b.origins(nd['args'][1]))})")
+            po = b.origins(nd['args'][2])
+            if not po or not all('parse_segments' in x for x in po):
+                problems.append(f'not on the parsed request key ({sorted(po)})')
+            ps = crate.calls(f, lambda c: c.endswith('parse_segments'))
+            if len(ps) != 1 or b.origins(ps[0][0]['args'][0]) != {'param(key)'}:
+                problems.append('the path is not parsed from the request key')
+            if not has_result:
+                oks = [x for x, _ in crate.walk_fn(f) if x.get('k') == 'call' and (ctor_name(x) or '').endswith('Ok') and x['args']]
+                if not oks or not all(any(o.startswith(f'call({STORE}::{sfn})') and o.endswith('[0]') for o in b.origins(o_['args'][0])) and
+                                      all(o.startswith(f'call({STORE}::{sfn})') for o in b.origins(o_['args'][0])) for o_ in oks):
+                    problems.append('the returned receiver is not the one the store produced')
+        if problems:
+            rep.violation('C06.f', f'Worterbuch::{fname}', f.loc, '; '.join(problems), key=f'C06.f/{fname}/' + '|'.join(p_.split(' (')[0] for p_ in problems))
+        else:
+            rep.ok('C06.f', f'Worterbuch::{fname}', f.loc, f'Store::{sfn}(client_id, parse_segments(key))' + ('?' if has_result else ' -> Ok(receiver)'))
+
+
+RULES = [('C06.f', rule_f), ('C06.a', rule_a), ('C06.b', rule_b), ('C06.c', rule_c), ('C06.d', rule_d), ('C06.e', rule_e)]
